@@ -689,6 +689,7 @@ fn c16_build(cfg: &[u16]) -> Built {
         (K::Topic, 6),
         (K::List, 3),
         (K::Lusers, 2),
+        (K::Nick, 8),
     ]);
     c.opers.push(OperSpec { name: "op0".into(), password: "operpw0".into(), mask: None });
     prof.oper_names.push(("op0".into(), "operpw0".into()));
